@@ -80,8 +80,8 @@ def check (g : Mon) (opl obs : String) : Mon × Option String :=
       match plain, ok with
       | .ok g', true => (g', none)
       | .error _, false => (g, none)
-      | .ok _, false => (g, some "site=claims.valid_refused the claims registry refused an operation the plain map accepts")
-      | .error why, true => (g, some s!"site=claims.{why}_accepted the claims registry accepted an operation the plain map refuses ({why})")
+      | .ok _, false => (g, some (refusedSite "claims" "valid"))
+      | .error why, true => (g, some (acceptedSite "claims" why))
     let retWant := match c, ok with
       | .op (.add t _ i _ _ _), true => showId (i, t)
       | _, _ => "-"
